@@ -56,6 +56,18 @@ def attachedPackets (bs : Nat) (v : Version) (signer nonce msg : Bytes) :
     | .error e => .error e
     | .ok blks => .ok (h, headerBytes, blks)
 
+/-- like `attachedPackets`, for an arbitrary chunk plan and minor version (C09) -/
+def attachedPacketsPlan (v : Version) (minor : Int) (signer nonce : Bytes) (plan : List (Bytes × Bool)) :
+    Except Err (SigHeader × Bytes × List SigBlock) :=
+  if !knownVersion v then .error .badVersion
+  else
+    let h := header ⟨v.major, minor⟩ (P.sigPub signer) mtAttached nonce
+    let headerBytes := encode h.toVal
+    let hh := P.hash headerBytes
+    match blockStructs P v signer hh plan 0 with
+    | .error e => .error e
+    | .ok blks => .ok (h, headerBytes, blks)
+
 /-- `Sign` / `NewSignStream`+writes+`Close` given the header nonce -/
 def attachedWith (bs : Nat) (v : Version) (signer nonce msg : Bytes) : Except Err Bytes :=
   match attachedPackets P bs v signer nonce msg with
